@@ -309,6 +309,20 @@ def _rewrites(gx):
     }
 
 
+_NESTED = [("dup_choice", "seq_never"), ("dup_choice", "negpred_never"), ("seq_never", "seq_never"), ("seq_never", "negpred_never"),
+           ("extract_silent", "seq_never"), ("dup_choice", "dup_choice")]
+_STACK_OPS = ("Push", "PushLiteral", "Pop", "PopAll", "Drop", "Peek", "PeekAll", "PeekSlice")
+
+
+def _all_rewrites(gx):
+    """the six rewrites plus compositions of two of them at the same site (inner first)"""
+    base = _rewrites(gx)
+    out = dict(base)
+    for a, b in _NESTED:
+        out[f"nested:{a}>{b}"] = (lambda fa, fb: lambda e, ctx: fb(fa(e, ctx), ctx))(base[a], base[b])
+    return out
+
+
 def _corpus(rel: str) -> list[tuple[str, str]]:
     root = _repo_root()
     out: list[tuple[str, str]] = []
@@ -387,8 +401,14 @@ def differential(tier: str, seed: int) -> dict:
         ns0: dict[str, Any] = {}
         exec(compile(base_p.generate(), "<g>", "exec"), ns0)  # noqa: S102
         expected = {(r, t): observe(base_p, ns0["parse"], r, t) for r, t in corpus}
-        for kind in _rewrites(gx):
-            for _ in range(per_kind):
+        uses_stack = any(k in text for k in ("PUSH", "POP", "DROP", "PEEK"))
+        for kind in _all_rewrites(gx):
+            nested = kind.startswith("nested:")
+            if nested and not uses_stack and tier == "quick":
+                continue
+            # nested rewrites of a stack-using grammar: every site whose subtree touches the user stack
+            rounds = per_kind if not (nested and uses_stack) else 64
+            for round_no in range(rounds):
                 for opt in (False, True):
                     parser = Parser.from_grammar(text, optimizer=None)
                     user_rules = [k for k, v in parser.rules.items() if type(v).__name__ == "GrammarRule"]
@@ -417,6 +437,20 @@ def differential(tier: str, seed: int) -> dict:
                         if not cand:
                             continue
                         rn, px = rnd.choice(cand)
+                    elif nested and uses_stack:
+                        def touches(e):
+                            return type(e).__name__ in _STACK_OPS or any(touches(c) for c in e.children() if not type(c).__name__.endswith("Rule"))
+
+                        cand = []
+                        for rn, px in sites:
+                            e = parser.rules[rn].expression
+                            for i in px:
+                                e = e.children()[i]
+                            if touches(e):
+                                cand.append((rn, px))
+                        if round_no >= len(cand):
+                            break
+                        rn, px = cand[round_no]
                     else:
                         rn, px = rnd.choice(sites)
                     counter = [0]
@@ -436,7 +470,7 @@ def differential(tier: str, seed: int) -> dict:
                         return cls(*parts)
 
                     ctx = {"new_rule": new_rule, "reassoc": reassoc}
-                    fn = _rewrites(gx)[kind]
+                    fn = _all_rewrites(gx)[kind]
 
                     def rebuild(e, pathx):
                         if not pathx:
@@ -494,13 +528,15 @@ TRUSTED = [
     "compositionality (meta-argument): a rewrite at any nesting preserves the whole result because K of a compound depends on its children only through their oracles, except at the audited shape-inspection sites",
 ]
 ASSUMPTIONS = [*groups.COMMON_ASSUMPTIONS, "grammars without node tags (true of the nine bundled grammars; checked on every run)", "NEVER does not occur in the input"]
-BOUNDED = ["differential stand-in on the bundled grammars: sampled sites (2 per rewrite kind and grammar in quick, 8 in thorough), 3-6 inputs each"]
+BOUNDED = ["differential stand-in on the bundled grammars: sampled sites (2 per rewrite kind and grammar in quick, 8 in thorough), 3-6 inputs each; compositions of two rewrites at every user-stack-touching site of the stack-using grammar (lists)"]
 
 
 def specs(tier):
     from . import templates as t
 
-    code = [ops.SequenceSpec(), ops.ChoiceSpec(), ops.GroupSpec(), ops.NegPredSpec(), ops.PosPredSpec(), ops.IdentifierSpec(), ops.RuleSpec(2), ops.RuleSpec(0),
+    from . import c09
+
+    code = [*[c() for c in c09.SPECS], ops.SequenceSpec(), ops.ChoiceSpec(), ops.GroupSpec(), ops.NegPredSpec(), ops.PosPredSpec(), ops.IdentifierSpec(), ops.RuleSpec(2), ops.RuleSpec(0),
             *[x for x in t.combinator_templates(3) if any(k in x.label for k in ("Sequence", "Choice", "Group", "Predicate"))], *t.identifier_templates()[:1], t.RuleTemplate(2)]
     return [RewriteLemmas(), Audits(), *code]
 
